@@ -164,24 +164,44 @@ func normExpr(c *Ctx, info *types.Info, pkg *types.Package, n ast.Node) string {
 	}
 	var reps []rep
 	ast.Inspect(n, func(m ast.Node) bool {
+		if call, isCall := m.(*ast.CallExpr); isCall && info != nil {
+			// len/cap of an array: a compile-time constant, read as its value
+			if tv, has := info.Types[call]; has && tv.Value != nil {
+				from, to := c.Fset.Position(call.Pos()).Offset, c.Fset.Position(call.End()).Offset
+				reps = append(reps, rep{from, to, tv.Value.ExactString()})
+				return false
+			}
+		}
 		id, ok := m.(*ast.Ident)
 		if !ok || info == nil {
 			return true
+		}
+		off := c.Fset.Position(id.Pos()).Offset
+		curLen := len(id.Name)
+		r, renamed := renamedAt[c.Fset.Position(id.Pos()).Filename][off]
+		if renamed && r.old == id.Name {
+			curLen = r.n
+		} else {
+			renamed = false
 		}
 		obj := info.Uses[id]
 		if obj == nil {
 			obj = info.Defs[id]
 		}
-		off := c.Fset.Position(id.Pos()).Offset
 		switch o := obj.(type) {
 		case *types.Var:
 			if !o.IsField() && (pkg == nil || o.Parent() != pkg.Scope()) {
-				reps = append(reps, rep{off, off + len(id.Name), "_"})
+				reps = append(reps, rep{off, off + curLen, "_"})
+				return true
 			}
 		case *types.Const:
 			if o.Val() != nil && o.Pkg() == pkg {
-				reps = append(reps, rep{off, off + len(id.Name), o.Val().ExactString()})
+				reps = append(reps, rep{off, off + curLen, o.Val().ExactString()})
+				return true
 			}
+		}
+		if renamed {
+			reps = append(reps, rep{off, off + curLen, r.old})
 		}
 		return true
 	})
